@@ -1,4 +1,4 @@
-\* quick A: two requesters overlap on one topic, recycling through the pool, timeouts; no close
+\* anti-vacuity: a requester that breaks the FreeMessage contract (frees a sent message whose reply it did not consume) -> ReplyToOwnRequest must FAIL
 SPECIFICATION Spec
 CONSTANTS
   Clients = {1, 2, 101}
@@ -19,8 +19,8 @@ CONSTANTS
   QueueClose = FALSE
   FixLowDone = TRUE
   FixCloseSweep = TRUE
-  FreeAfterTimeout = FALSE
+  FreeAfterTimeout = TRUE
   EmitOn = FALSE
 VIEW view
-INVARIANTS TypeOK ReplyToOwnRequest AtMostOnce ErrAfterClose PoolClean
+INVARIANTS ReplyToOwnRequest
 CHECK_DEADLOCK FALSE
